@@ -129,6 +129,11 @@ func (cr *caseRunner) run(s scenario) {
 	ev.MainAns = cr.in.answerID(c, out.hits)
 	ev.Cmp = cmpSeq(out.hits)
 	ev.Attr = cr.in.attrs(c, s, q, out.hits)
+	for i := range out.attr {
+		if out.attr[i] != nil && i < len(ev.Attr) {
+			ev.Attr[i] = out.attr[i]
+		}
+	}
 	ev.Path = out.path
 	if first != nil {
 		ev.HasFst = true
